@@ -668,6 +668,7 @@ func TestVerifC19Net(t *testing.T) {
 
 	const self = "127.0.0.1:1"
 	const pw = "verif"
+	slowPeers := map[string]map[int]time.Duration{} // scenario name -> per-peer delay (overrides delay)
 	type scen struct {
 		name    string
 		flag    bool
@@ -703,6 +704,21 @@ func TestVerifC19Net(t *testing.T) {
 		slow.delay = 160 * time.Millisecond
 		scens = append(scens, slow)
 	}
+	// more peers than any plausible batch of parallel requests: the first, a middle and the last one are off
+	many := func(name string, bad int, off time.Duration) scen {
+		o := make([]time.Duration, 19)
+		o[bad] = off
+		return scen{name: name, offsets: o, dead: make([]bool, 19)}
+	}
+	scens = append(scens, many("19-peers-first-ahead-1h", 0, h), many("19-peers-second-ahead-1h", 1, h),
+		many("19-peers-seventeenth-behind-1h", 17, -h), many("19-peers-last-ahead-3s", 18, 3*s), many("19-peers-healthy", 3, 0))
+	// one peer answers, but takes longer than the election timeout to do so, and its clock is off: an answer
+	// that arrives late is still an answer (the measurement only gets less precise)
+	scens = append(scens,
+		scen{name: "very-slow-peer-ahead-1h", offsets: []time.Duration{0, h, 0}, dead: []bool{false, false, false}},
+		scen{name: "very-slow-peer-behind-1h", offsets: []time.Duration{0, 0, -h}, dead: []bool{false, false, false}})
+	slowPeers["very-slow-peer-ahead-1h"] = map[int]time.Duration{1: 2300 * time.Millisecond}
+	slowPeers["very-slow-peer-behind-1h"] = map[int]time.Duration{2: 2300 * time.Millisecond}
 	// Every (scenario, entry point) runs in a child process of this test binary: the code under test ends the
 	// process (log.Fatalf) when it cannot reach the join target, and a tree that leaves requests in flight must
 	// not disturb the next scenario.  The child writes its record before the call (verdict "exit") and again
@@ -753,6 +769,9 @@ func TestVerifC19Net(t *testing.T) {
 			addrs := make([]string, len(sc.offsets))
 			for i := range sc.offsets {
 				nd := &c19Node{offset: sc.offsets[i], delay: sc.delay}
+				if d, ok := slowPeers[sc.name][i]; ok {
+					nd.delay = d
+				}
 				if sc.offsets[i] == c19NoTime {
 					nd.offset, nd.noTime = 0, true
 				}
